@@ -81,12 +81,20 @@ func (r *routes) Inject(controller *DebugController) {
 	r.controller = controller
 }
 
-func assetHandler(whitelisted []string, check1337 bool) http.Handler {
-	whitelist := "!" + strings.Join(whitelisted, "!") + "!"
+// originAllowed reports whether origin is one of the whitelisted origins, or every origin is allowed ("*")
+func originAllowed(whitelisted []string, origin string) bool {
+	for _, allowed := range whitelisted {
+		if allowed == origin || allowed == "*" {
+			return true
+		}
+	}
+	return false
+}
 
+func assetHandler(whitelisted []string, check1337 bool) http.Handler {
 	return http.HandlerFunc(func(rw http.ResponseWriter, req *http.Request) {
 		origin := req.Header.Get("Origin")
-		if strings.Contains(whitelist, "!"+origin+"!") || strings.Contains(whitelist, "!*!") {
+		if origin != "" && originAllowed(whitelisted, origin) {
 			rw.Header().Add("Access-Control-Allow-Origin", origin)
 		}
 
